@@ -360,3 +360,57 @@ func TestVF_Concurrent(t *testing.T) {
 	b, _ := json.Marshal(res)
 	vfWriteJSON(t, "concurrent.json", json.RawMessage(b))
 }
+
+// TestVF_ConcurrentTick (run WITHOUT the race detector: the unsynchronised endpoint fields are a recorded observation,
+// DESIGN.md section 11 (i)): the hourly metadata refresh, executed in a tight loop, overlaps login redirects, callbacks
+// and authenticated requests of many browsers on one instance.  Judged: no deadlock (watchdog), no panic, every response
+// explainable by its own request (same monitor as the stress run).
+func TestVF_ConcurrentTick(t *testing.T) {
+	res := map[string]interface{}{}
+	c := vfNewConc(t, 60)
+	dur := time.Duration(vfEnvInt("VERIF_TICK_MS", 1500)) * time.Millisecond
+	stop := time.Now().Add(dur)
+	var ticks int64
+	var wg sync.WaitGroup
+	wg.Add(1)
+	go func() {
+		defer wg.Done()
+		for time.Now().Before(stop) {
+			vfDiscShiftExpiry(c.t, 2*time.Hour) // the cached document is stale: the tick really fetches and rewrites the endpoints
+			vfDiscRefreshTick(c.t, c.w.prov.issuer)
+			atomic.AddInt64(&ticks, 1)
+		}
+	}()
+	for i := 0; i < 12; i++ {
+		wg.Add(1)
+		go func(i int) {
+			defer wg.Done()
+			b := &vfConcBrowser{email: fmt.Sprintf("tick%d@example.com", i), jar: map[string]string{}}
+			for n := 0; time.Now().Before(stop); n++ {
+				if i%3 == 0 { // login redirects only (they build the authorization URL from the endpoint fields)
+					anon := &vfConcBrowser{email: b.email, jar: map[string]string{}}
+					c.get(anon, fmt.Sprintf("/t%d/anon/%d", i, n))
+					continue
+				}
+				if !c.login(b, fmt.Sprintf("/t%d/start/%d", i, n)) {
+					return
+				}
+				c.get(b, fmt.Sprintf("/t%d/page/%d", i, n))
+				c.get(b, vfLogoutPath)
+			}
+		}(i)
+	}
+	fin := make(chan struct{})
+	go func() { wg.Wait(); close(fin) }()
+	select {
+	case <-fin:
+	case <-time.After(dur + 25*time.Second):
+		c.violate("deadlock: requests and the metadata refresh did not finish within %s of a %s run (login redirects blocked by the refresh?)", dur+25*time.Second, dur)
+	}
+	res["ticks"] = atomic.LoadInt64(&ticks)
+	res["requests"] = atomic.LoadInt64(&c.nreq)
+	res["violations"] = append([]string{}, c.viol...)
+	b, _ := json.Marshal(res)
+	vfWriteJSON(t, "concurrent_tick.json", json.RawMessage(b))
+	// no c.w.close(): blocked goroutines (if any) would make it hang; the process ends with the test
+}
